@@ -53,6 +53,12 @@ HTTP_MSGS: Dict[str, dict] = {
                        "headers": [["x-a\r\nx-evil", "1"]]},
     "start_trailers": {"type": "http.response.start", "status": 200, "headers": [],
                        "trailers": True},
+    # payloads the statement does not list (outcome open) - but whatever is refused with nothing
+    # written must leave the request as it was: a corrected start has to be accepted afterwards
+    "start_status_str": {"type": "http.response.start", "status": R("200 OK"), "headers": []},
+    "start_status_none": {"type": "http.response.start", "status": R(None), "headers": []},
+    "start_spacename": {"type": "http.response.start", "status": 200,
+                        "headers": [["x a", "1"]]},
     "body": {"type": "http.response.body", "body": "abc", "more_body": True},
     "body_empty": {"type": "http.response.body", "body": "", "more_body": True},
     "body_last": {"type": "http.response.body", "body": "z", "more_body": False},
@@ -98,7 +104,8 @@ WS_MSGS: Dict[str, dict] = {
 }
 
 CORE_HTTP = ["start", "start_pseudo", "start_crlf", "body", "body_last", "push", "push_badpath",
-             "unknown", "start_strname", "trailers", "hint", "start_nul"]
+             "unknown", "start_strname", "trailers", "hint", "start_nul", "start_status_str",
+             "start_spacename"]
 CORE_WS = ["accept", "accept_crlf", "send_text", "send_badtext", "close", "hstart", "hbody_last",
            "unknown", "accept_pseudo", "hstart_crlf"]
 
@@ -139,6 +146,9 @@ def http_expect(state: str, name: str, proto: str) -> Tuple[str, str]:
             return "raise", state
         if has_ctl(msg):
             return "any", "?"  # must not reach the wire; raising is one way to ensure that
+        if not isinstance(msg["status"], int) or not 100 <= msg["status"] <= 999 \
+                or any(" " in h[0] for h in msg["headers"] if isinstance(h[0], str)):
+            return "any", "?"  # not listed: open; if refused, the state stays (see the judge)
         if msg.get("trailers") and h2:
             return "ok", "RESPONSE_T"
         return "ok", "RESPONSE"
